@@ -1,0 +1,7 @@
+//go:build !verif
+
+package replication
+
+import "sync"
+
+type managerMutex = sync.Mutex
